@@ -777,7 +777,7 @@ func main() {
 	}
 	var unconfirmed []unconf
 	var nondeterministic []string
-	confirmedAtoms := map[string]bool{}
+	confirmedFP := map[string]bool{}
 	sort.Strings(rorder)
 	for _, fp := range rorder {
 		f := rf[fp]
@@ -808,7 +808,7 @@ func main() {
 			unconfirmed = append(unconfirmed, unconf{fp, key, same, uniqStr(others), o.a})
 			continue
 		}
-		confirmedAtoms[o.a.id] = true
+		confirmedFP[fp] = true
 		var acts, classes []string
 		for _, x := range f.obs {
 			acts = append(acts, x.kind+" "+x.idlName)
@@ -822,7 +822,18 @@ func main() {
 		// a crash that shows in some runs only (the bytes on the wire depend on
 		// Go's map iteration order) on an action that fails deterministically in
 		// another, confirmed way is another face of that failure
-		if crashLike(strings.Split(u.fp, "/")[1]) && confirmedAtoms[u.a.id] && len(u.others) > 0 {
+		parts := strings.SplitN(u.fp, "/", 3)
+		ok := crashLike(parts[1]) && len(u.others) > 0
+		for _, o := range u.others {
+			f := o
+			if i := strings.Index(f, ":"); i >= 0 {
+				f = f[:i]
+			}
+			if !confirmedFP[report.FPEscape(parts[0]+"/"+f+"/"+parts[2])] {
+				ok = false
+			}
+		}
+		if ok {
 			nondeterministic = append(nondeterministic, fmt.Sprintf("%s on %s: %d/5 (otherwise %v)", u.fp, u.key, u.same, u.others))
 			continue
 		}
@@ -844,21 +855,22 @@ func main() {
 			"action kinds (methods of 0..3 parameters, void or not, signals of 0/2/3 parameters, 2-parameter property), identifier hygiene (Go keywords, predeclared names, the generator's own locals and imported package names as parameter names, reserved and keyword method names, struct member names, interface names) and pairs of colliding names. " +
 			"Each atom is generated and type-checked alone; the compiling ones are assembled (<=110 per package), compiled with go build and every action is driven with every boundary value (methods: argument tuples one position at a time + diagonal, every return value; signals: every payload through Signal<X> to Subscribe<X>; properties: Set/Get/On<X>Change/Subscribe for every value). " +
 			"evaluations = atoms given a verdict + value cases executed; distinct_nontrivial = distinct (action kind, type or hygiene class) pairs whose generated code compiled and was driven with at least one value case",
-		"samples":                      samples,
-		"exhaustive":                   exhaustive,
-		"atoms":                        total,
-		"atoms_failing_alone":          aloneFail - len(c.rejected),
-		"atoms_rejected_by_idl_parser": c.rejected,
-		"atoms_assembled":              len(passing),
-		"interplay_failures":           interplay,
-		"packages_built":               len(builts),
-		"actions_driven":               driven,
-		"value_cases":                  cases,
-		"oracle_checks":                checks,
-		"types_in_universe":            len(typeUniverse(map[string]int{"quick": 1, "thorough": 2}[tier])),
-		"atoms_not_driven":             notDriven,
-		"generate_and_build_seconds":   buildS,
-		"run_time_fingerprints":        rorder,
+		"samples":                               samples,
+		"exhaustive":                            exhaustive,
+		"atoms":                                 total,
+		"atoms_failing_alone":                   aloneFail - len(c.rejected),
+		"atoms_rejected_by_idl_parser":          c.rejected,
+		"atoms_assembled":                       len(passing),
+		"interplay_failures":                    interplay,
+		"packages_built":                        len(builts),
+		"actions_driven":                        driven,
+		"value_cases":                           cases,
+		"oracle_checks":                         checks,
+		"types_in_universe":                     len(typeUniverse(map[string]int{"quick": 1, "thorough": 2}[tier])),
+		"atoms_not_driven":                      notDriven,
+		"generate_and_build_seconds":            buildS,
+		"run_time_fingerprints":                 rorder,
+		"nondeterministic_crashes_not_reported": nondeterministic,
 	}
 	_ = start
 	finish(cov)
